@@ -104,6 +104,8 @@ def gen_network(rng, size=None, finite_only=False, genes=True, max_mets=6, max_r
             add({a: F(-1)}, reversible=False, kind="SK_"); budget -= 1
         else:
             budget -= 1
+    while len(rxns) < 2:                  # never an empty network
+        add({rng.choice(mets): rng.choice([F(1), F(-1)])}, kind="DM_")
     # objective
     k = 1 if rng.random() < 0.75 else 2
     for r in rng.sample(rxns, min(k, len(rxns))):
